@@ -27,7 +27,7 @@ ObsOK(ev, m) ==
           /\ ev.has[q - KeyLo + 1] = (q \in DOMAIN m)
 
 Mark(okk, why) == IF okk \/ bad THEN bad' = bad
-                  ELSE /\ PrintT(<<"REJECT", l, why>>) /\ bad' = TRUE
+                  ELSE /\ PrintT("REJECT " \o ToString(l) \o " " \o ToString(why)) /\ bad' = TRUE
 
 TInit == Init /\ l = 1 /\ bad = FALSE
 
@@ -44,7 +44,7 @@ TClear == /\ Ev.e = "clear" /\ ClearOp /\ Mark(ObsOK(Ev, abs'), "clear")
 TCopy == /\ Ev.e = "copy" /\ CopyOp /\ Mark(ObsOK(Ev, abs'), "copy")
 \* anything else (Crash, Hang, unknown) is explained by no action of the specification
 TOther == /\ Ev.e \notin {"Reset", "set", "del", "get", "clear", "copy"}
-          /\ PrintT(<<"REJECT", l, Ev.e>>)
+          /\ PrintT("REJECT " \o ToString(l) \o " " \o ToString(Ev.e))
           /\ bad' = TRUE /\ UNCHANGED vars
 
 TNext == /\ l <= Len(Log) /\ l' = l + 1
